@@ -477,7 +477,22 @@ fn family(msg: &str) -> String {
         }
         last_n = false;
     }
-    out.split_whitespace().collect::<Vec<_>>().join(" ").chars().take(70).collect()
+    // slug: lower case, runs of other characters -> '-'
+    let mut slug = String::new();
+    for ch in out.chars() {
+        if ch.is_ascii_alphanumeric() {
+            slug.push(ch.to_ascii_lowercase());
+        } else if !slug.ends_with('-') && !slug.is_empty() {
+            slug.push('-');
+        }
+    }
+    slug.trim_end_matches('-').chars().take(64).collect()
+}
+
+/// identity of a panic: file (line numbers are volatile) plus the family of the first line of the message
+fn panic_id(stage: &str, pm: &str) -> String {
+    let msg = pm.splitn(3, ':').nth(2).unwrap_or("").lines().next().unwrap_or("");
+    format!("{stage}:{}:{}", panic_path(pm), family(msg))
 }
 
 /// merge refused a healthy pair: is it merge's own doing, or does duke alone refuse one of the input classes
@@ -494,11 +509,11 @@ fn classify_refusal(b: &Built, stage: &str, err: &str) -> (String, String) {
                 duke::write_class(&mut v, &tree).map(|_| v)
             }) {
                 Ok(Ok(_)) => {}
-                Ok(Err(e)) => return (format!("duke-write-class:{}", family(&e.root_cause().to_string())), format!("{n:?}: duke::write_class alone refuses the class duke read: {e:#}")),
-                Err(pm) => return (format!("duke-write-class:panic:{}", panic_path(&pm)), format!("{n:?}: {pm}")),
+                Ok(Err(e)) => return (format!("duke-write-class.{}", family(&e.root_cause().to_string())), format!("{n:?}: duke::write_class alone refuses the class duke read: {e:#}")),
+                Err(pm) => return (panic_id("duke-write-class", &pm), format!("{n:?}: {pm}")),
             },
-            Ok(Err(e)) => return (format!("duke-read-class:{}", family(&e.root_cause().to_string())), format!("{n:?}: duke::read_class alone refuses this well-formed class: {e:#}")),
-            Err(pm) => return (format!("duke-read-class:panic:{}", panic_path(&pm)), format!("{n:?}: {pm}")),
+            Ok(Err(e)) => return (format!("duke-read-class.{}", family(&e.root_cause().to_string())), format!("{n:?}: duke::read_class alone refuses this well-formed class: {e:#}")),
+            Err(pm) => return (panic_id("duke-read-class", &pm), format!("{n:?}: {pm}")),
         }
     }
     (stage.to_string(), err.to_string())
@@ -564,6 +579,7 @@ fn apply_seen(st: &mut RunStats, s: &Seen) {
     st.probe_n("differing_list_compatible_orders", s.merged_compatible);
     st.probe_n("differing_list_incompatible_orders", s.merged_incompatible);
     st.probe_n("onesided_interface", s.merged_itf_onesided);
+    st.probe_n("interface_order_not_kept(unconstrained)", s.interface_order_not_kept);
     st.probe_n("onesided_member", s.merged_member_onesided);
     st.probe_n("shared_member_differs", s.merged_member_shared_differs);
     st.probe_n("signature_file_dropped", s.sig_dropped);
@@ -796,7 +812,7 @@ fn gen_class_item(w: &mut Rng, name: &str, swarm_features: u32, big: bool, allow
     ci
 }
 
-const CLASS_PREFIXES: [&str; 9] = ["net/minecraft/", "net/minecraft/", "net/minecraft/server/", "", "", "com/google/common/", "org/apache/logging/", "netx/minecraft/", "META-INF/versions/9/"];
+const CLASS_PREFIXES: [&str; 12] = ["net/minecraft/", "net/minecraft/", "net/minecraft/server/", "", "", "com/google/common/", "org/apache/logging/", "netx/minecraft/", "META-INF/versions/9/", "net/minecraftforge/", "net/fabricmc/api/", "net/"];
 const RES_NAMES: [&str; 12] = [
     "pack.mcmeta",
     "assets/minecraft/lang/en_us.json",
@@ -847,8 +863,8 @@ impl Engine for C13 {
     }
     fn runs(&self, tier: Tier) -> u64 {
         match tier {
-            Tier::Quick => 24_000,
-            Tier::Thorough => 400_000,
+            Tier::Quick => 60_000,
+            Tier::Thorough => 2_400_000,
         }
     }
 
@@ -992,7 +1008,7 @@ impl Engine for C13 {
         let obs0 = match r0 {
             Outcome::Panic(pm, stage) => {
                 obs.u64(0xDEAD);
-                out.push(Violation::new("T0", "panic", format!("{stage}:{}", panic_path(&pm)), pm));
+                out.push(Violation::new("T0", "panic", panic_id(stage, &pm), pm));
                 st.obs = obs;
                 return out;
             }
@@ -1003,13 +1019,13 @@ impl Engine for C13 {
                 } else {
                     let (path, detail) = classify_refusal(&b, stage, &e);
                     st.probe("t0_refused");
-                    st.probe(if path.contains("label for bytecode") {
+                    st.probe(if path.contains("label-for-bytecode") {
                         "t0_refused.duke_label_at_code_length"
-                    } else if path.contains("utf-") {
+                    } else if path.contains("-utf-") {
                         "t0_refused.duke_mutf8"
-                    } else if path.contains("array class name") {
+                    } else if path.contains("array-class-name") {
                         "t0_refused.duke_array_class_name"
-                    } else if path.contains("class file version") {
+                    } else if path.contains("class-file-version") {
                         "t0_refused.duke_version"
                     } else if path.starts_with("duke-") {
                         "t0_refused.duke_other"
@@ -1085,7 +1101,7 @@ impl Engine for C13 {
             match r1 {
                 Outcome::Panic(pm, stage) => {
                     obs.u64(0xDEAD);
-                    out.push(Violation::new(tier, "panic", format!("{stage}:{}", panic_path(&pm)), pm));
+                    out.push(Violation::new(tier, "panic", panic_id(stage, &pm), pm));
                 }
                 Outcome::Err(e, stage) => {
                     obs.u64(0xE44);
@@ -1165,7 +1181,7 @@ impl Engine for C13 {
                         }
                     }
                     Outcome::Err(e, stage) => out.push(Violation::new("T2", "residue-after-heal", format!("{stage}.result"), e)),
-                    Outcome::Panic(pm, stage) => out.push(Violation::new("T2", "panic", format!("heal.{stage}:{}", panic_path(&pm)), pm)),
+                    Outcome::Panic(pm, stage) => out.push(Violation::new("T2", "panic", format!("heal.{}", panic_id(stage, &pm)), pm)),
                 }
             }
         }
@@ -1341,7 +1357,9 @@ impl Engine for C13 {
             "the property is silent on the following, the oracle follows merge.rs: META-INF/MANIFEST.MF is replaced by the fixed two-line manifest; a resource that differs between the sides keeps the client's bytes; a member present on both sides with different content keeps the client's version (unmarked)".into(),
             "class-level content of a differing class other than interfaces, fields and methods (version, flags, attributes, record components, permitted subclasses, inner classes) is not constrained by the property: differences from the client's are counted (probe classlevel_differs_from_client), never flagged".into(),
             "a one-sided class must equal its source class plus the mark, compared as refclass::Sem (the class is re-encoded by duke, so bytes are not compared); differences in stack map frames and local variable tables (known duke defects) are reported under <stage>.method[*].code.frame* / .local_var* and neutralised so that the rest of the class is still compared".into(),
-            "order clause: the orders of a list on the two sides are compatible iff the keys both sides share occur in the same relative order; then the merged list restricted to each side's keys must equal that side's list; otherwise only exactly-once is demanded".into(),
+            "order clause: the orders of a list on the two sides are compatible iff the keys both sides share occur in the same relative order; then the merged list restricted to each side's keys must equal that side's list; otherwise only exactly-once is demanded. The statement's order clause names members (fields, methods); for the interface list only exactly-once and the marks are demanded, a lost interface order is counted (probe interface_order_not_kept)".into(),
+            "92 % of the runs keep the generated classes inside what duke::read_class accepts today (no exception range ending at code_length, no array-class owners in member references, no preview minor version, no SourceDebugExtension, no non-ASCII names): a class duke refuses makes merge return Err, which is C01's matter and is filed under refused-wellformed/duke-read-class.*; the other 8 % are untamed".into(),
+            "3 % of the runs may draw a difference merge.rs asserts on (class version/access, Deprecated/Synthetic attribute of the class or of a shared member); everywhere else classes on both sides differ only in member lists, member bodies (access flag, max_stack, line numbers) and SourceFile".into(),
             "T2: an Ok under faults is compared with the reference union of the entries the zip crate delivers from the DELIVERED bytes of each jar (entries the merge has to drop need not be readable); when only transient faults fired (EIO, failed seek) an Ok must equal the T0 observation; findings already reported at T0 for the same run are not repeated at T2".into(),
             "jar entries of the merged result are observed from ParsedJar.entries (name, kind, class bytes via IsClass::write / resource bytes), never from jar bytes (the zip crate stamps the wall clock); to_mem() is reopened and must hold the same entries".into(),
             "harness profile: opt-level 2 with overflow checks and debug assertions".into(),
